@@ -11,6 +11,7 @@ import (
 	"os"
 	"sort"
 	"strings"
+	"time"
 
 	"0chain.net/chaincore/block"
 	cstate "0chain.net/chaincore/chain/state"
@@ -704,7 +705,9 @@ func (w *world) runBlock(round int64, b blk) blockRes {
 		r.dkgAfter = w.observe(w.mpt, round)
 		return r
 	}
-	func() {
+	done := make(chan struct{})
+	go func() {
+		defer close(done)
 		defer func() {
 			if p := recover(); p != nil {
 				r.stepOut, r.stepErr = "PPanic", fmt.Sprint(p)
@@ -746,6 +749,17 @@ func (w *world) runBlock(round int64, b blk) blockRes {
 		must(minersc.VerifGovSaveGlobalNode(gn, c))
 		r.stepOut = "PSaved"
 	}()
+	select {
+	case <-done:
+	case <-time.After(20 * time.Second):
+		// a lock of the contract is held for good (lockPhaseFunctions is taken without defer, so a panic of a phase
+		// function that was recovered earlier in this process leaves it locked): nothing more can run here
+		hung = true
+		r.stepOut, r.stepErr = "PHang", "the phase step blocks on a contract mutex"
+		r.pnAfter = r.pnBefore
+		r.dkgAfter = r.dkgBefore
+		return r
+	}
 	if r.stepOut == "PSaved" {
 		w.adopt(f)
 	}
@@ -765,6 +779,8 @@ func (w *world) runBlock(round int64, b blk) blockRes {
 // ---------- the property, evaluated on one block ----------
 
 type viol struct{ sig, desc string }
+
+var hung bool // a contract mutex is blocked for good: the engine stops
 
 func (w *world) judge(b blk, r blockRes, count func(string)) []viol {
 	var vs []viol
@@ -858,6 +874,9 @@ func (w *world) judge(b blk, r blockRes, count func(string)) []viol {
 	xp := w.h.Settings["x_percent"]
 	badX := xp != "" && (strings.HasPrefix(xp, "-") || xp == "0" || strings.EqualFold(xp, "nan"))
 	switch r.stepOut {
+	case "PHang":
+		add("phase-step-blocked", "%s", r.stepErr)
+		return vs
 	case "PPanic":
 		if badX && r.phase == int64(minersc.Publish) {
 			add("nonpositive-x-percent-panics-member-selection", "x_percent=%s: the phase step panics while selecting the members of the new magic block: %s", xp, r.stepErr)
@@ -1217,6 +1236,9 @@ func coqCase(h hist, rs []blockRes) string {
 	}
 	var blocks, obs []string
 	for bi, r := range rs {
+		if r.stepOut == "PHang" {
+			break
+		}
 		var ts, res []string
 		for i, t := range h.Blocks[bi].Txns {
 			if s, ok := coqTxn(t, r, i); ok {
@@ -1269,7 +1291,7 @@ func run(h *hist, gen *vh.Rand, nBlocks int, count func(string), clean ...bool) 
 			fmt.Fprintf(os.Stderr, "BLK %d phase %d due=%v cond=%v(%s) move=%s func=%s out=%s(%s) pn=%+v dkg=%+v tx=%v %v\n", round, r.phase, r.due, r.cond, r.condWhy, r.moveRes, r.funcRes, r.stepOut, r.stepErr, r.pnAfter, r.dkgBefore, r.txRes, r.txErr)
 		}
 		vs = append(vs, w.judge(h.Blocks[i], r, count)...)
-		if r.stepOut == "PPanic" {
+		if r.stepOut == "PPanic" || r.stepOut == "PHang" {
 			h.Blocks = h.Blocks[:i+1]
 			break
 		}
@@ -1375,7 +1397,11 @@ func main() {
 				dup = dup || old.Signature == v.sig
 			}
 			if !dup {
-				rep.Violate(v.sig, v.desc, shrink(h, v.sig))
+				if hung {
+					rep.Violate(v.sig, v.desc, h)
+				} else {
+					rep.Violate(v.sig, v.desc, shrink(h, v.sig))
+				}
 			}
 		}
 	}
@@ -1402,7 +1428,7 @@ func main() {
 	handle(hist{NMiners: 4, NSharders: 2, PrevMiners: []int{1, 2, 3}, PrevSharders: []int{51}, IsVC: true, Seed: 5,
 		Rounds: [5]int64{1, 1, 1, 1, 1}, Settings: map[string]string{"min_n": "3", "max_n": "4", "min_s": "1", "max_s": "2"}}, vh.NewRand(1), 14, true)
 	rnd := vh.NewRand(o.Seed)
-	for i := 0; i < o.N(45, 600); i++ {
+	for i := 0; i < o.N(45, 600) && !hung; i++ {
 		h := genSetup(rnd)
 		handle(h, rnd.Fork(), rnd.Range(25, 50))
 	}
